@@ -9,7 +9,8 @@ From EV Require Import Base.Bytes Base.Store Base.Monad gen.Consts gen.AppendSit
 (* the three shared key prefixes the property text names, pinned against the generated constants *)
 Example C13_pinned_prefixes :
   P = str "ELRONDesdt"%string /\ RP = str "ELRONDroleesdt"%string /\ NP = str "ELRONDnonce"%string
-  /\ prefix_names = ["e.keyPrefix"; "roleKeyPrefix"; "noncePrefix"]%string.
+  /\ prefix_vars = ["roleKeyPrefix"; "noncePrefix"]%string
+  /\ measured_prefix "recv.keyPrefix" = true /\ measured_prefix "in.Arguments" = false.
 Proof. repeat split. Qed.
 
 (* ---- determinism: the function the implementation is compared to ---- *)
@@ -83,7 +84,7 @@ Theorem C13_write_sites_safe : forall k site, In (k, site) write_sites -> in_cal
   as_class site = Fresh \/ as_class site = Decoded \/ as_class site = OwnOutput.
 Proof. exact write_sites_safe_in. Qed.
 Theorem C13_prefix_args_known : forall site, In site append_sites -> in_call_scope site = true ->
-  as_class site = PrefixField -> In (as_arg site) prefix_names.
+  as_class site = PrefixField -> measured_prefix (as_arg site) = true.
 Proof. exact prefix_args_known_in. Qed.
 Theorem C13_sites_accounted : forall site, In site append_sites ->
   (in_call_scope site = true /\ safe_provenance site)
@@ -92,7 +93,7 @@ Proof. exact sites_accounted. Qed.
 (* the table is not empty, and it does contain the dangerous shape outside the call scope *)
 Example C13_table_nonvacuous :
   (exists site, In site append_sites /\ in_call_scope site = true /\ as_class site = PrefixField
-                /\ as_arg site = "e.keyPrefix"%string)
+                /\ String.prefix "recv." (as_arg site) = true)
   /\ (exists site, In site append_sites /\ in_call_scope site = false /\ as_class site = Input)
   /\ 20 <= List.length (filter in_call_scope append_sites)
   /\ 5 <= List.length (filter (fun ks => in_call_scope (snd ks)) write_sites).
